@@ -1816,6 +1816,36 @@ def rule_R9enc(text, applied):
     return t
 
 
+def rule_R38(text, applied):
+    """`X.iter().copied().filter(|c| P).collect()` (the function's tail expression or a let initialiser) -> the loop that is
+    the std definition of copied + filter + collect (the filter closure gets a reference to each item):
+      { let mut foN_ = Vec::new(); let mut fiN_: usize = 0; while fiN_ < X.len() { let c = &X[fiN_]; fiN_ += 1; if P { foN_.push(*c); } } foN_ }"""
+    cnt = 0
+    while True:
+        m_text = mask(text)
+        m = re.search(r"([\w\.]+?)\s*\.\s*iter\(\)\s*\.\s*copied\(\)\s*\.\s*filter\s*\(\s*\|\s*(\w+)\s*\|\s*", m_text)
+        if not m:
+            break
+        x, c = "".join(m.group(1).split()), m.group(2)
+        op = m_text.index("(", m_text.index("filter", m.end(1)))
+        cp = match_close(m_text, op)
+        pred = text[m.end():cp].strip().rstrip(",").strip()
+        if re.search(r"\breturn\b|\|", mask(pred)):
+            raise ExtractError("R38: filter predicate outside the subset")
+        cm = re.match(r"\s*\.\s*collect(?:::<[^>]*>)?\(\)", m_text[cp + 1:])
+        if not cm:
+            raise ExtractError("R38: filter(..) is not followed by collect() (outside the subset)")
+        end = cp + 1 + cm.end()
+        n = cnt
+        code = (f"{{ let mut fo{n}_ = Vec::new(); let mut fi{n}_: usize = 0; while fi{n}_ < {x}.len() {{ let {c} = &{x}[fi{n}_]; fi{n}_ += 1; "
+                f"if {' '.join(pred.split())} {{ fo{n}_.push(*{c}); }} }} fo{n}_ }}")
+        text = text[:m.start()] + _keep_newlines(text[m.start():end], code) + text[end:]
+        cnt += 1
+    if cnt:
+        applied.append(f"R38x{cnt}")
+    return text
+
+
 def rule_R8bitget(text, applied):
     """`E.get(I).as_deref().copied()` on a BitVec -> `E.vget(I)` (stub method: Some(bit) in range, None beyond)."""
     t, n = _sub_masked(text, r"\.\s*get\(([^\)]+)\)\s*\.\s*as_deref\(\)\s*\.\s*copied\(\)", lambda m, s: f".vget({m.group(1).strip()})")
@@ -2090,7 +2120,7 @@ RULES = {
     "R25": rule_R25, "R7optake": rule_R7optake,
     "R23": rule_R23, "R24": rule_R24,
     "R16push": rule_R16push, "R22": rule_R22, "R22flat": rule_R22flat,
-    "R20": rule_R20, "R21": rule_R21, "R7stackrev": rule_R7stackrev, "R7pairs": rule_R7pairs, "R7indexmap": rule_R7indexmap, "R12frozen": rule_R12frozen, "R9enc": rule_R9enc, "R37": rule_R37, "R36": rule_R36, "R35": rule_R35, "R16oiw": rule_R16oiw, "R9blockon": rule_R9blockon, "R34": rule_R34, "R31": rule_R31, "R30": rule_R30, "R26it": rule_R26it, "R29": rule_R29, "R7own": rule_R7own, "R28": rule_R28, "R27": rule_R27, "R8all": rule_R8all, "R16od": rule_R16od, "R10site": rule_R10site,
+    "R20": rule_R20, "R21": rule_R21, "R7stackrev": rule_R7stackrev, "R7pairs": rule_R7pairs, "R7indexmap": rule_R7indexmap, "R12frozen": rule_R12frozen, "R38": rule_R38, "R9enc": rule_R9enc, "R37": rule_R37, "R36": rule_R36, "R35": rule_R35, "R16oiw": rule_R16oiw, "R9blockon": rule_R9blockon, "R34": rule_R34, "R31": rule_R31, "R30": rule_R30, "R26it": rule_R26it, "R29": rule_R29, "R7own": rule_R7own, "R28": rule_R28, "R27": rule_R27, "R8all": rule_R8all, "R16od": rule_R16od, "R10site": rule_R10site,
     "R1": rule_R1, "R2": rule_R2, "R2ref": rule_R2ref, "R3": rule_R3, "R4": rule_R4, "R5": rule_R5,
     "R8max": rule_R8max, "R8cmpmax": rule_R8cmpmax, "R8resize_none": rule_R8resize_none, "R9": rule_R9, "R8position": rule_R8position, "R8rotate": rule_R8rotate, "R12refcell": rule_R12refcell,
     "R8slice": rule_R8slice, "R7iter": rule_R7iter, "R8bitget": rule_R8bitget, "R8intonext": rule_R8intonext, "R8rposition": rule_R8rposition, "R8contains": rule_R8contains, "R12cell": rule_R12cell, "R8resize_veccap": rule_R8resize_veccap, "R8collectid": rule_R8collectid, "R8index": rule_R8index, "subst": rule_subst,
@@ -2251,6 +2281,11 @@ def build_fn(src: Source, selector, opts, sections, emitter: Emitter, unit_rules
     for r in ALWAYS:
         text = r(text, applied)
     for rn in opts.get("rules", []):
+        if rn == "Host":
+            # trait-impl method hosted in an inherent impl block of the template (no associated types involved)
+            kind = "inherent"
+            applied.append("Host(trait-impl method as inherent method)")
+            continue
         if rn == "SelfItem":
             # trait-impl method hosted in an inherent impl: `Self::Item` -> the impl's `type Item = ..;`
             m_ = re.fullmatch(r"<(\w+) as (\w+)>::(\w+)", selector.strip())
